@@ -289,9 +289,10 @@ class Function:
                 roots = self._roots_mentioned(t)
                 okv = True
                 conflicts = []
+                own = set(self.subtree(d["init"], into_lambdas=True))
                 for sid, r in stores:
-                    if r is None:
-                        continue
+                    if r is None or sid in own:
+                        continue        # (what the initialiser itself does happens before the local has its value)
                     if r[0] == v and not d.get("is_ref"):
                         okv = False
                         conflicts = None
@@ -323,6 +324,20 @@ class Function:
             return None
         for sid in inf["conflicts"]:
             if inf["decl"] < sid < use_id:
+                cs = sid
+                if self.nodes[sid]["k"] == "UnaryOperator":
+                    # `&x` handed to a call: the write, if any, happens when that call runs
+                    pm = self.parent_map()
+                    cur = sid
+                    for _ in range(6):
+                        cur = pm.get(cur)
+                        if cur is None:
+                            break
+                        if self.nodes[cur]["k"] in CALLS or self.nodes[cur]["k"] in CTORS:
+                            cs = cur
+                            break
+                if use_id in self._call_subtree(cs):
+                    continue        # the use is an operand of the very call / assignment that writes: evaluated before the write
                 return None
             if sid >= use_id:
                 for lp in self.loops_containing(use_id):
@@ -330,6 +345,14 @@ class Function:
                     if sid in sub and inf["decl"] not in sub:
                         return None
         return inf["term"]
+
+    def _call_subtree(self, sid):
+        c = getattr(self, "_call_sub", None)
+        if c is None:
+            c = self._call_sub = {}
+        if sid not in c:
+            c[sid] = set(self.subtree(sid, into_lambdas=True))
+        return c[sid]
 
     def _loop_subtrees(self):
         c = getattr(self, "_loop_sub", None)
@@ -538,7 +561,10 @@ class Function:
         if k == "StringLiteral":
             return ("str", bytes(nd.get("bytes", [])))
         if k == "InitListExpr":
-            return ("initlist", tuple(self.term(c) for c in self.kids(i)))
+            ks = self.kids(i)
+            if len(ks) == 1 and nd.get("iw") is not None and not nd.get("rec"):
+                return self.term(ks[0])         # `uint32_t{1}`: a scalar written with braces
+            return ("initlist", tuple(self.term(c) for c in ks))
         if k == "LambdaExpr":
             return ("lambda", nd.get("lambda_fn"))
         return ("?", k, i)
@@ -643,6 +669,17 @@ def canon_binop(op, a, b, unsigned):
                     return ("op", "&", x[2], ("const", -c[1]))
     if unsigned and op == "<<" and b[0] == "const" and a[0] == "op" and a[1] == ">>" and a[3] == b:
         return ("op", "&", a[2], ("const", -(1 << b[1])))
+    if op == "&":
+        # a mask with the top bit set has one spelling: the negative number it is in two's complement (~3 == -4, however wide)
+        for x, c in ((a, b), (b, a)):
+            if c[0] == "const" and c[1] >= (1 << 31) and any(c[1] == (1 << w) - (1 << k) for w in (32, 64) for k in range(0, 16)):
+                w = 32 if c[1] < (1 << 32) else 64
+                return ("op", "&", x, ("const", c[1] - (1 << w)))
+    if unsigned and op == "*":
+        # x * (1 << k) is x << k
+        for x, c in ((a, b), (b, a)):
+            if c[0] == "op" and c[1] == "<<" and c[2] == ("const", 1):
+                return ("op", "<<", x, c[3])
     if op == "!=" and a[0] == "size" and b == ("const", 0):
         return ("op", ">", a, b)
     if op in ("+", "-"):
@@ -808,6 +845,8 @@ class Facts:
                         pass
                     elif n0["k"] == "IfStmt" and n0.get("else") is None and n0.get("then") is not None and self._throw_only_stmt(fn, n0["then"]):
                         pass        # a refusal: where the function returns at all, it returns the expression below
+                    elif self._refusing_call_stmt(fn, k0):
+                        pass        # `VerifyIndexInBounds(i);` - a helper that only refuses
                     else:
                         okb = False
                         break
@@ -837,6 +876,27 @@ class Facts:
                         if t not in subs:
                             subs.add(t)
                             changed = True
+
+    def _refusing_call_stmt(self, fn, sid):
+        """Statement sid is a call of a repository function that returns nothing and stores nothing (it can only refuse)."""
+        i = fn.strip(sid, casts=False)
+        nd = fn.n(i)
+        while nd["k"] in ("ExprWithCleanups",) and fn.kids(nd["id"]):
+            nd = fn.n(fn.kids(nd["id"])[0])
+        if nd["k"] not in ("CallExpr", "CXXMemberCallExpr"):
+            return False
+        cal = self.functions.get(nd.get("fn"))
+        if cal is None or not cal.cfg or (cal.d.get("ret_ct") or "void") != "void":
+            return False
+        for x in cal.nodes:
+            if x["k"] in ("BinaryOperator", "CompoundAssignOperator") and x.get("op", "").endswith("=") and x["op"] not in ("==", "!=", "<=", ">="):
+                return False
+            if x["k"] == "UnaryOperator" and x.get("op") in ("++", "--"):
+                return False
+            if x["k"] == "CXXMemberCallExpr" and not x.get("mconst") and not x.get("mstatic") and (x.get("mrec") or "").startswith("std::") \
+                    and x.get("fname") not in ("begin", "end", "size", "data", "c_str"):
+                return False
+        return True
 
     @staticmethod
     def _throw_only_stmt(fn, sid):
